@@ -16,7 +16,8 @@ RULE = ("cases = (network recipe, solver options) drawn by Hypothesis: random tr
         "branch types pipe/valve(ju,pi)/pump/compressor/press_control/flow_control/heat_exchanger, 1-3 ext grids, "
         "sinks/sources/storages with scalings, in_service/opened patterns, label schemes (contiguous, shuffled, sparse, "
         ">=1e5), row and creation order permutations, sectors, all library fluids, 3 friction models, numba on/off, "
-        "damping; plus district-heating loops (circulation pumps, heat consumers). Distinct = distinct recipe hash. "
+        "damping; plus district-heating loops (circulation pumps, heat consumers); plus meshed lattices of 12..100 (thorough: "
+        "..625) junctions, for which the per-junction bound is the same. Distinct = distinct recipe hash. "
         "Non-trivial = converged AND (a junction with >=3 incident flowing elements OR a mesh/parallel pair carries flow) "
         "AND >=2 component types carry flow.")
 ASSUMPTIONS = ["sign conventions as documented: branch mdot_from positive = leaving the from junction; sink positive = "
@@ -28,8 +29,13 @@ EX = {"quick": 70, "thorough": 2500}
 
 @st.composite
 def case_strategy(draw, tier):
-    kind = draw(st.sampled_from(["hyd"] * 4 + ["heat"]))
-    if kind == "hyd":
+    kind = draw(st.sampled_from(["hyd"] * 8 + ["heat"] * 2 + ["grid"]))
+    if kind == "grid":
+        # the bound on the imbalance is per junction and must not grow with the size of the network
+        rec = draw(gen.grid_net(max_side=10 if tier == "quick" else 25))
+        opts = draw(gen.hyd_options(tight=draw(st.booleans()), friction_model="nikuradse"))
+        opts["mode"] = "hydraulics"
+    elif kind == "hyd":
         rec, opts = draw(gen.hyd_case(max_n=10 if tier == "quick" else 30))
         opts["mode"] = "hydraulics"
     else:
@@ -126,8 +132,10 @@ def balance(net, rec):
             pf = pipe_end_flow.get(key, np.nan)
             live = [v for v in vals if not np.isnan(v)]
             if np.isnan(pf):
-                # pipe without results: attached valves must not report flow
-                if any(abs(v) > 1e-9 * scale + 1e-13 for v in live):
+                # pipe without results: the attached valves together must not pass flow (two valves in parallel at the same
+                # pipe end form a loop without resistance when both have zero loss - a circulation inside that loop is
+                # undetermined and harmless, so the clause is on the sum)
+                if abs(sum(live)) > 1e-9 * max(scale, max([abs(v) for v in live] + [0.0])) + 1e-13:
                     findings.append(Finding("pi_valve_flow", "C01.pi_valve_flow", {"pipe_junction": key, "valves": vals}))
                 continue
             tol = 1e-9 * max(scale, abs(pf)) + 1e-13
@@ -190,12 +198,16 @@ def evaluate(case):
         labels.add("large_index")
     if net.res_junction.p_bar.isnull().any():
         labels.add("has_unsupplied")
+    nj = len(rec["junction"])
+    labels.add("junctions:" + ("<=12" if nj <= 12 else "13-40" if nj <= 40 else "41-150" if nj <= 150 else ">150"))
     for t in stats["flowing_types"]:
         labels.add("flow:" + t)
     nontriv = (stats["max_inc"] >= 3 or mesh) and len(stats["flowing_types"] - {"sink", "source", "mass_storage"}) + \
         (1 if stats["flowing_types"] & {"sink", "source", "mass_storage"} else 0) >= 2
     out = Outcome(findings=findings, labels=labels, nontrivial=nontriv, sample=
-                  {"recipe": abbreviate(rec), "options": opts, "worst_rel_imbalance": stats["worst_rel"]})
+                  {"recipe": abbreviate(rec) if "grid" not in rec.get("meta", {}) else
+                   {"lattice": rec["meta"]["grid"], "fluid": rec["fluid"], "junctions": len(rec["junction"]), "elements": len(rec["elements"])},
+                   "options": opts, "worst_rel_imbalance": stats["worst_rel"]})
     out.worst = stats["worst_rel"]
     return out
 
